@@ -1,17 +1,16 @@
-\* C11 quick A: every module graph over 3 modules (<= 2 requires each; form and
-\* load-time bump of an edge fixed by its position), every form of requiring
-\* the first module followed by the bumps it makes possible
+\* C11 quick B: every module graph over 2 modules, every importer program of
+\* <= 2 commands over all forms; termination of every command
 CONSTANTS
   Interps = {"i1"}
   UnwindOnFailure = TRUE
   Mode = "c11"
-  ModSeq <- Mods3
+  ModSeq <- Mods2
   MaxOut = 2
   GenRot = TRUE
   MaxCtr = 1
   LoadCap = 2
   MaxReq = 2
-  CmdsOf <- C11Entry
+  CmdsOf <- C11Cmds
   Export = TRUE
 SPECIFICATION Spec
 INVARIANT TypeOK
@@ -26,4 +25,5 @@ PROPERTY DefsPersist
 PROPERTY Isolation
 PROPERTY LoadOnlyInLoadStep
 PROPERTY BindsExactly
+PROPERTY Terminates
 CHECK_DEADLOCK FALSE
